@@ -64,8 +64,11 @@ def strategy(tier):
     jitter = st.one_of(st.just([]), st.lists(st.sampled_from([0.0, 0.0, 0.01, 0.03, 0.05]), min_size=1, max_size=7))
     hist = st.builds(lambda sl, sw, j: {"k": "hist", "sleepers": sl, "switches": sw, "jitter": j},
                      st.lists(sleeper, min_size=1, max_size=12), st.lists(switch, min_size=1, max_size=8), jitter)
+    # an element is one raw state per device, or "reconnect": the facade is discarded and a new one is built on the same spa state
+    # (what every reset / recovery does) while the process-wide configuration stays as it is
+    assign = st.lists(st.integers(0, 3), min_size=8, max_size=8)
     fac = st.builds(lambda si, seq: {"k": "facade", "snap": si, "seq": seq},
-                    st.integers(0, 60), st.lists(st.lists(st.integers(0, 3), min_size=8, max_size=8), min_size=1, max_size=8))
+                    st.integers(0, 60), st.lists(st.one_of(assign, assign, assign, assign, st.just("reconnect")), min_size=1, max_size=10))
     return st.one_of(hist, hist, fac)
 
 
@@ -204,6 +207,19 @@ def _run_facade(res, case):
             # applies from the first state change on
             prev_cfg = cfg_states(spa.struct.status_block)
             for assign in case["seq"]:
+                if assign == "reconnect":
+                    block = spa.struct.status_block
+                    await fac.disconnect()
+                    for t in tm._tasks:
+                        t.cancel()
+                    await asyncio.gather(*tm._tasks, return_exceptions=True)
+                    tm = facades.FakeTaskMan()
+                    spa = facades.make_async_spa(plat, cv, lv, block, tm)
+                    spa._last_ping = None
+                    fac = GeckoAsyncFacade(spa, tm)
+                    devs = fac.pumps + fac.blowers + fac.lights
+                    stats["reconnects"] = stats.get("reconnects", 0) + 1
+                    continue
                 # assign a raw state value to each device's state item
                 block = spa.struct.status_block
                 for d, raw in zip(devs, assign):
@@ -260,6 +276,8 @@ def _run_facade(res, case):
     W.run(main)
     res.nontrivial = stats["nt"]
     res.label("facade")
+    if stats.get("reconnects"):
+        res.label("facade-rebuilt")
 
 
 def run_case(case) -> Result:
